@@ -8,6 +8,7 @@ on the library's own outputs) and Sm9Trace.tla (scheme calls).  Binding: harness
 on boundary-biased operands and the sign / verify / encrypt / decrypt / exchange interfaces over master keys, identities and
 messages; signatures and ciphertexts are cross-checked with the independent reference in both directions."""
 from common import *
+import hashlib
 import cryptolib as CL
 import json
 import sm9ref as R
@@ -121,6 +122,33 @@ def gen_arith(c):
             put({"op": "fp12_" + op, "a": A}, grp="tower", expect=list(R.fp12_to_bytes(R.fp12_frobenius(a, kk))))
         e = rng.choice([0, 1, 2, 3, N - 3, N - 2, rng.randrange(N - 1)])          # sm9_z256_fp12_pow requires an exponent below N-1
         put({"op": "fp12_pow", "a": A, "k": i2b(e)}, grp="tower", expect=list(R.fp12_to_bytes(R.fp12_pow(a, e))))
+    # sparse tower elements (one non-zero coordinate, the special-cased branches of inversion / squaring / multiplication): every position, several values
+    Z2, Z4 = (0, 0), ((0, 0), (0, 0))
+    for x in [1, 2, 3, p - 1, rng.randrange(2, p)] + ([] if q else [rng.randrange(2, p) for _ in range(6)]):
+        sp2 = [(x, 0), (0, x)]
+        sp4 = [(e, Z2) for e in sp2] + [(Z2, e) for e in sp2]
+        sp12 = [(e, Z4, Z4) for e in sp4] + [(Z4, e, Z4) for e in sp4] + [(Z4, Z4, e) for e in sp4]
+        for a in sp2:
+            A, B = R.fp2_to_bytes(a), R.fp2_to_bytes(r2())
+            for op in ("inv", "sqr", "inplace_sqr", "sqr_u", "frobenius"):
+                put({"op": "fp2_" + op, "a": A}, grp="tower")
+            for op in ("mul", "inplace_mul", "mul_u"):
+                put({"op": "fp2_" + op, "a": A, "b": B}, grp="tower")
+                put({"op": "fp2_" + op, "a": B, "b": A}, grp="tower")
+            put({"op": "fp2_div", "a": B, "b": A}, grp="tower")
+        for a in sp4:
+            A, B = R.fp4_to_bytes(a), R.fp4_to_bytes(r4())
+            for op in ("inv", "sqr", "inplace_sqr", "sqr_v"):
+                put({"op": "fp4_" + op, "a": A}, grp="tower")
+            for op in ("mul", "inplace_mul", "mul_v"):
+                put({"op": "fp4_" + op, "a": A, "b": B}, grp="tower")
+                put({"op": "fp4_" + op, "a": B, "b": A}, grp="tower")
+        for a in (sp12 if not q or x in (1, p - 1) else sp12[::3]):
+            A, B = R.fp12_to_bytes(a), R.fp12_to_bytes(r12())
+            for op in ("inv", "sqr", "inplace_sqr"):
+                put({"op": "fp12_" + op, "a": A}, grp="tower")
+            put({"op": "fp12_mul", "a": A, "b": B}, grp="tower")
+            put({"op": "fp12_mul", "a": B, "b": A}, grp="tower")
     # ---- G1 ----
     G = R.P1
     pts = [G, R.g1_mul(2, G), R.g1_mul(N - 1, G), R.g1_mul(rng.randrange(1, N), G), R.g1_mul(rng.randrange(1, N), G)]
@@ -216,7 +244,7 @@ def run_arith(c):
     res = CL.run_script(*DRV, lines, tag="c17a", procs=14)
     jc, meta = [], []
     for (line, evs, san), case in zip(res, cases):
-        key = "c17:%s:%s" % (case["op"], ":".join(str(line.get(k, ""))[:18] for k in ("a", "b", "k", "P", "Q", "ident", "hid") if line.get(k, "") not in ("", "-")))
+        key = "c17:%s:%s" % (case["op"], ":".join(shortv(line.get(k, "")) for k in ("a", "b", "k", "P", "Q", "ident", "hid") if line.get(k, "") not in ("", "-")))
         c.count(1, key)
         if san or not evs:
             c.violation(key[:160] + ":crash", "driver died / sanitizer report: %s" % san, {"line": {k: str(v)[:200] for k, v in line.items()}})
@@ -426,6 +454,11 @@ def run_schemes(c):
         key, evs = execs[i]
         c.violation(key[:200], "call %s is not allowed by the SM9 contract: %s" % (ev.get("op"), json.dumps({k: (v if not isinstance(v, str) or len(v) < 50 else "<%d>" % len(v)) for k, v in ev.items()})[:400]), {"events": evs})
     return execs
+
+
+def shortv(v):
+    v = str(v)
+    return v if len(v) <= 18 else v.lstrip("0")[:6] + "~" + hashlib.sha1(v.encode()).hexdigest()[:10]
 
 
 def body():
